@@ -400,11 +400,11 @@ func init() {
 	register(&PropSpec{
 		ID:          "C13",
 		Level:       "other",
-		Decided:     "(a) for every one of the unfolder's state types, by-value and by-reference delivery of strings and of keys are either both handled or both rejected; (b) the states that skip an unknown member accept every event that may legally occur inside the skipped value (17 scalar events + by-reference strings, both container starts, both child-done hooks, and keys inside a skipped object), and the family can close arrays and objects; (c) every On<number> method that forwards to another On<number> event keeps the number class (signed/unsigned/float); (d) no update of a field unfolder / state is lost on a local copy (R22 LOST-UPDATE over gotype); (e) a completed container value and a completed primitive value leave a state the same way, all primitive events of a state agree on their stack effect, every state initialiser is balanced by each completing event, a slice never takes its length from its capacity, cached unfolder objects are not written at event time (R23); (f) strings and keys delivered by reference are copied before they are kept (R16 REF-COPY); (g) fold and unfold derive member names identically and omit is honoured before any other option (R20). Reset re-initialises every stack of the context (R15).",
+		Decided:     "(a) for every one of the unfolder's state types, by-value and by-reference delivery of strings and of keys are either both handled or both rejected; (b) the states that skip an unknown member accept every event that may legally occur inside the skipped value (17 scalar events + by-reference strings, both container starts, both child-done hooks, and keys inside a skipped object), and the family can close arrays and objects; (c) every On<number> method that forwards to another On<number> event keeps the number class (signed/unsigned/float); (d) no update of a field unfolder / state is lost on a local copy (R22 LOST-UPDATE over gotype); (e) a completed container value and a completed primitive value leave a state the same way, all primitive events of a state agree on their stack effect, every state initialiser is balanced by each completing event, a slice never takes its length from its capacity, cached unfolder objects are not written at event time (R23); (f) strings and keys delivered by reference are copied before they are kept (R16 REF-COPY); (g) fold and unfold derive member names identically and omit is honoured before any other option (R20). Reset re-initialises every stack of the context (R15). (h) a container built for an announced element type holds elements of the Go type that BaseType names, on the creating and on the completing side (R11 SLOT); a nil target map is allocated whenever it is nil, not only when the stream announces members (R14 NIL-MAP).",
 		NotDecided:  "assignment semantics, numeric conversion 'whenever the value fits' (the generated unfolders convert unchecked by design), fields not mentioned staying untouched, the generic interface{} target's value. Those need execution against a reference.",
 		Assumptions: []string{"a method that only returns a package-level error is a rejection; anything else is treated as handling the event"},
 		TrustedBase: baseTrusted,
-		Rules:       []RuleRun{{"R12", R12}, {"R22", R22("gotype")}, {"R23", R23}, {"R16", R16}, {"R20", R20}, {"R15", R15}},
+		Rules:       []RuleRun{{"R12", R12}, {"R22", R22("gotype")}, {"R23", R23}, {"R16", R16}, {"R20", R20}, {"R15", R15}, {"R11", R11}, {"R14", R14}},
 		LevelText:   "Structural necessary conditions decided exhaustively over the method sets of all unfolder state types (go/types) and the bodies of the resolved methods (SSA): a missing or rejecting method makes some well-formed stream fail. This is the part of C13 that is visible in the shape of the code; the value-level part is not decided.",
 		Technique:   "method-set completeness and sibling agreement over go/types method sets; rejecting-method classification on SSA; forwarder number-class check; context-rooted stack-delta path analysis of all unfolder states (value-completion agreement, initialiser balance, propagation loop in the driver); capacity-taint; receiver-immutability of cached unfolders; alias/retention flow for by-reference strings; member-name and omit-first path rules",
 		DesignRef:   "DESIGN.md section 2 R12, section 3 C13",
